@@ -243,12 +243,46 @@ def run(ctx):
     got = ctx.borrow(lambda c: stats_from_returned(c, nc, nd), lambda oid: oid.startswith('C10.collect.'))
     if len(got) < 2:
         ctx.unknown('C07.R7.7.collect', 'run_progress', 'collect', why='collect obligations of the two progress runners could not be instantiated (%d of 2)' % len(got))
+    par_reductions(ctx)
     # the seeding entry points reach the code the analysis anchors: no inherent method shadows a trait method on the sampler /
     # proposal types, and Proposal::set_seed stays a REQUIRED method (a provided default would silently leave implementors unseeded)
     from .. import frame
     frame.shadowing(ctx, 'C07', ['distributions::IsotropicGaussian', 'metropolis_hastings::MHMarkovChain', 'metropolis_hastings::MetropolisHastings', 'gibbs::GibbsMarkovChain', 'gibbs::GibbsSampler', 'hmc::HMC', 'nuts::NUTSChain', 'nuts::NUTS'])
     frame.required_method(ctx, 'C07', 'distributions::Proposal', 'set_seed',
                           why='MetropolisHastings::new / seed re-seed each chain\'s proposal through this method; the analysis treats the call as "returns the proposal re-seeded with the argument", which only an implementor can do')
+
+
+UNORDERED_REDUCTIONS = ('rayon::iter::ParallelIterator::reduce', 'rayon::iter::ParallelIterator::reduce_with', 'rayon::iter::ParallelIterator::sum',
+                        'rayon::iter::ParallelIterator::product', 'rayon::iter::ParallelIterator::try_reduce', 'rayon::iter::ParallelIterator::try_reduce_with',
+                        'rayon::iter::ParallelIterator::fold', 'rayon::iter::ParallelIterator::fold_with', 'rayon::iter::ParallelIterator::try_fold')
+
+
+def par_reductions(ctx):
+    """floating-point addition is not associative and rayon's reduction tree follows the pool size and the schedule: a parallel
+    reduce / sum / fold whose items carry floats makes the result (samples or diagnostics) depend on the thread count.  Indexed
+    parallel maps collected in order are fine (and are what the crate uses).  Crate-wide scan, typed on the reduction's result."""
+    hits, n_par = [], 0
+    for b in ctx.facts.bodies:
+        if not ctx.facts.is_hand_written(b) or b['def_kind'] not in ('Fn', 'AssocFn', 'Closure'):
+            continue
+        root = ctx.facts.closure_root(b) or b
+        path = strip_generics(root['path'])
+        if 'tests::' in path or path.startswith('dev_tools'):
+            continue
+
+        def f(n, path=path):
+            nonlocal n_par
+            if n.get('k') == 'Call' and isinstance(n.get('fn'), dict):
+                key = callee_key(n['fn'])
+                if key.startswith('rayon::'):
+                    n_par += 1
+                if key in UNORDERED_REDUCTIONS and re.search(r'\bf(32|64)\b|Tensor<|\bT\b|\bF\b', str(n.get('ty', ''))):
+                    hits.append('%s in %s (%s)' % (key.rsplit('::', 1)[1], path, str(n.get('ty'))[:60]))
+        walk(b.get('thir'), f)
+    ctx.check('C07.R7.8.par_reduce', 'crate', 'parallel-reductions', not hits and n_par > 0,
+              expected='no rayon reduce / sum / fold over floating-point items (parallel work is an indexed map collected in order)',
+              found='; '.join(hits) or '%d rayon calls, none an unordered floating-point reduction' % n_par, sp=None,
+              why='f32/f64 addition is not associative: a parallel reduction tree gives results that differ in the low bits between pool sizes and schedules')
 
 
 def purity(ctx, A):
